@@ -48,6 +48,20 @@ impl<T> Outcome<T> {
             Outcome::Diverged(s) => Outcome::Diverged(s),
         }
     }
+    /// Deterministic rendering (maps are sorted).
+    pub fn describe_json(&self) -> String
+    where T: serde::Serialize {
+        match self {
+            Outcome::Ok(t) => {
+                let s = format!("Ok({})", crate::props::common::to_json(t));
+                crate::props::common::clip(&s, 1500)
+            }
+            Outcome::Err(k, s) => format!("Err({k:?}: {s})"),
+            Outcome::Panic { msg, loc } => format!("PANIC at {loc}: {msg}"),
+            Outcome::Hang(s) => format!("DID NOT RETURN: {s}"),
+            Outcome::Diverged(s) => format!("MACHINERY: {s}"),
+        }
+    }
     pub fn describe(&self) -> String
     where T: std::fmt::Debug {
         match self {
